@@ -156,6 +156,12 @@ def check_case(ctx: Any, script: list[str], max_retry: int, timeout: float, over
     w = {**case, "tx": tx, "outcome": kind, "detail": detail, "reconnects": len(reconnects), "vt": out["vt"],
          "allowed": sorted(map(str, allowed))[:8], "error": repr(out.get("exc"))[:200] if "exc" in out else None,
          "log": [(l[0], round(l[1], 3), l[4] if len(l) > 4 else None) for l in log][-24:]}
+    stale = [l for l in log if l[0] == "stale-use"]
+    if reconnects:
+        ctx.reach("reconnect.returned-new-object", len(reconnects))
+    if stale:
+        ctx.violation(f"client/uses-transport-replaced-by-reconnect/{stale[0][3]}", "after reconnect() returned the new transport the client still used the old (closed) object", w)
+        return
     # (a) identical (re)transmissions
     if any(l[3] != REQ for l in writes):
         ctx.violation("client/retransmission-differs", "a (re)transmission is not byte-identical to request.pdu", w)
